@@ -155,11 +155,12 @@ def install():
         m.get_device_mesh = get_device_mesh
 
 
-def run_world(W: int, fn, seed: int = 0, timeout: float = 120.0):
+def run_world(W: int, fn, seed: int = 0, timeout: float = 40.0):
     """fn(rank, world) in W threads.  Returns the World (logs, results, errors, verdict)."""
     global _current_world
     install()
     from torch.testing._internal.distributed.multi_threaded_pg import ProcessLocalGroup
+    ProcessLocalGroup.reset()          # a previous world's exception must not poison this one
     world = World(W, seed)
     _current_world = world
     store = dist.HashStore()
